@@ -55,3 +55,19 @@ Proof. exact double_switch_refuted. Qed.
 (** restart silent: a poll whose view equals the published state emits nothing *)
 Theorem C16_unchanged_view_silent : forall c hint w, gen_events_h c hint w w = [].
 Proof. exact gen_events_h_silent. Qed.
+
+(** ** tie to the source text (Generated/Facts.v, regenerated at every run): the in-band prefixes
+    and suffixes the encoder writes and the two patterns the parser matches are those of
+    lib/datamodel/serialization.py now *)
+From Hermes Require Import Proofs.FactsTieSerial.
+From Coq Require Import String.
+Theorem C16_encoder_affixes_are_the_source_s :
+  map (fun p => (codes (fst p), codes (snd p))) Generated.Facts.inband_encoders
+  = [(s_HermesDatetime, [c_Z; c_rparen]); (s_HermesBytes, [c_rparen])].
+Proof. exact encoder_affixes_tie. Qed.
+Print Assumptions C16_encoder_affixes_are_the_source_s.
+Theorem C16_parser_patterns_are_the_source_s :
+  Generated.Facts.inband_regexes
+  = ["HermesDatetime\(\d{4}-\d{2}-\d{2}T\d{2}:\d{2}:\d{2}Z\)"; "HermesBytes\([^)]*\)"]%string.
+Proof. exact parser_patterns_tie. Qed.
+Print Assumptions C16_parser_patterns_are_the_source_s.
